@@ -330,6 +330,25 @@ def last_stream(rng, pid):
     return cases
 
 
+def forget_stream(rng, pid):
+    """IMPL-ONLY: a partly consumed buffered chunk of a wrapped iterator is leaked (`mem::forget`: leaking is safe, so nothing
+    may depend on a destructor of the chunk), then further chunks -- short ones included -- are pulled through the same buffer"""
+    cases = []
+    i = 0
+    for kind in ("iter", "iterref"):
+        for L in (5, 6, 7, 9):
+            for n in (3, 4):
+                for k in (0, 1, 2):
+                    for tail in (["bufnext all", "bufnext all", "bufnext all"], ["bufnext 1", "bufnext all", "bufnext all"]):
+                        c = make_source(rng, "%s-fg%d" % (pid, i), kind, L, hint=rng.choice(["exact", "inexact"]))
+                        c.threads = [["bufnew %d" % n, "bufnext %d+forget" % k] + list(tail)]
+                        c.owner = "drop"
+                        c.tags = {"implonly", "nomodel"}
+                        cases.append(c)
+                        i += 1
+    return cases
+
+
 def zst_stream(rng, pid):
     """zero-sized element types: `ptr.add(i) == ptr`, slices of any length occupy no memory"""
     cases = []
@@ -673,12 +692,12 @@ def stream_for0(pid, tier, seed):
     big = tier != "quick"
     if pid in ("C01", "C02", "C04"):
         return defects + pulls_stream(rng, tier, pid) + half_stream(rng, pid) + nth_stream(rng, pid) + liar_stream(rng, pid) + zst_stream(rng, pid) + pod_stream(rng, pid) + \
-            wrapper_nth_stream(rng, pid) + last_stream(rng, pid)
+            wrapper_nth_stream(rng, pid) + last_stream(rng, pid) + forget_stream(rng, pid)
     if pid == "C03":
         cases = defects + pulls_stream(rng, tier, pid, prof=dict(loops=False, query=False, drain=0.2))
         cases += half_stream(rng, pid) + nth_stream(rng, pid) + liar_stream(rng, pid) + zst_stream(rng, pid) + pod_stream(rng, pid)
         # a chunk pull in flight while another thread skips: the chunk it had reserved is still delivered in full
-        cases += inflight_stream(rng, pid, tier) + last_stream(rng, pid)
+        cases += inflight_stream(rng, pid, tier) + last_stream(rng, pid) + forget_stream(rng, pid)
         return cases
     if pid == "C05":
         cases = defects + pulls_stream(rng, tier, pid, prof=dict(nonfused=True), exh=False, n_random=800 if not big else 30000)
